@@ -567,6 +567,24 @@ def _scenario_case(case, rng, seed, enc):
             run("PWC-rbf-nn%s" % nn, clf, lambda: clf.fit(X, y, W), "ParzenWindowClassifier",
                 "kernel", True, votes=True,
                 concrete=conc("ParzenWindowClassifier(n_neighbors=%s, class_prior=%s)" % (nn, p0)))
+    # symbolic bandwidth gamma='mean' (resolved from the training data: degenerate training sets - one row,
+    # identical rows - must still give valid probabilities)
+    for sub in ("all", "one-row", "identical-rows"):
+        if sub == "all":
+            Xs, Ys, Ws = X, Y, W
+        elif sub == "one-row":
+            Xs, Ys, Ws = X[:1], Y[:1], (None if W is None else W[:1])
+        else:
+            Xs, Ys, Ws = np.repeat(X[:1], len(X), axis=0), Y, W
+        if len(Xs) == 0:
+            continue
+        ys = _y_array(enc, Ys)
+        clf = ParzenWindowClassifier(metric_dict={"gamma": "mean"}, classes=declared, missing_label=miss,
+                                     cost_matrix=cm, class_prior=float(p0), random_state=seed)
+        run("PWC-gamma-mean-%s" % sub, clf, lambda clf=clf, Xs=Xs, ys=ys, Ws=Ws: clf.fit(Xs, ys, Ws),
+            "ParzenWindowClassifier", "kernel,gamma=mean", True, seen=_seen_of(K, Ys), votes=True,
+            concrete=conc("ParzenWindowClassifier(metric_dict={'gamma': 'mean'}, class_prior=%s) on %s" % (p0, sub),
+                          X=np.asarray(Xs).tolist(), y=ys, W=Ws))
     # MixtureModelClassifier
     for mode in ("responsibilities", "similarities"):
         clf = MixtureModelClassifier(mixture_model=BayesianGaussianMixture(n_components=2, random_state=0),
